@@ -434,8 +434,9 @@ NextPList == \/ \E op \in {o \in POpsList : o.n \notin {"sort", "reverse"}} : PA
 InitPSet == PInit({})
 NextPSet == \/ \E op \in {o \in SeqSetOps : o.n # "assign" \/ TRUE} : PApply("set", ApplySet(st.val, op), op)
             \/ Persist \/ Rollback
+\* (no Rollback here: the insertion order of a dict is not persisted, so a reloaded mapping need not iterate in the model's order)
 NextPDict == \/ \E op \in SeqDictOps : PApply("dict", ApplyDict(st.val, op), op)
-             \/ Persist \/ Rollback
+             \/ Persist
 InitOrdE == InitEmit(InitOrd)
 InitPSetE == InitEmit(InitPSet)
 \* C50 / C49 in the property's words: the position of every element is its index (the model value IS the order); the database changes
